@@ -117,7 +117,10 @@ example :
       ([.assign 0 ⟨.count, 1⟩ 2, .beginGroup, .assign 1 ⟨.count, 2⟩ 3, .endGroup] ++ [.endGroup]))).1
       (.var ⟨.count, 1⟩) = .v (some 1) := by decide
 
--- hypotheses of `global_survives`: `\global\count1=3` at depth 2 after a local assignment, k = 2
+-- hypotheses of `global_survives` (and `assigned_value`): `\global\count1=3` at depth 2 after a
+-- local assignment, k = 2
+example : ∀ o ∈ (run .fixed VMState.init [.beginGroup, .beginGroup, .assign 0 ⟨.count, 1⟩ 2]).2,
+    o.fatal = false := by decide
 example : Spec.globalTarget
     (Spec.init.run [.beginGroup, .beginGroup, .assign 0 ⟨.count, 1⟩ 2]).1 (.assign 1 ⟨.count, 1⟩ 3)
     = some (.var ⟨.count, 1⟩) := by decide
